@@ -13,7 +13,7 @@ ID = 'C12'
 LEVEL = 'exploration'
 RULE = ('case = (0-4 children on a private server, each one of {one-shot running a cooperative loop, one-shot swallowing exceptions, idle persistent worker, busy '
         'persistent worker, already finished one-shot, persistent worker inside a context, context without workers, duplicate context registration attempt}, stop '
-        '{server.terminate(timeout=10), SIGTERM to the server pid}, delay between the last constructor returning and the stop {0, 50 ms, 500 ms}). Oracle within 10 s '
+        '{server.terminate(timeout=10), SIGTERM to the server pid}, delay between the last constructor returning and the stop {0, 50 ms, 500 ms}; a `starting` child is a RemoteWorker constructor still running in another thread 0/5/50 ms before the stop). Oracle within 10 s '
         'of the stop: no process started for this case is left (server, backend children, context helpers); every parent-side worker answers wait(5) with True '
         'under the guard, has has_error True / result None / error WorkerTerminatedError-or-None (finished workers keep their result); WorkerTerminatedError is '
         'required only for cooperative one-shot children when every child is cooperative or finished, the stop is terminate() and the delay is 500 ms. '
@@ -23,7 +23,7 @@ ASSUMPTIONS = ['processes of a case are identified as the processes carrying the
 SHRINK = 'greedy'
 SHRINK_RUNS = 8
 TIME_BUDGET = {'quick': 170, 'thorough': 1700}
-CHILD = ['coop', 'swallow', 'idle_p', 'busy_p', 'finished', 'p_in_ctx', 'empty_ctx', 'dup_ctx']
+CHILD = ['coop', 'swallow', 'idle_p', 'busy_p', 'finished', 'p_in_ctx', 'empty_ctx', 'dup_ctx', 'starting']
 REQUIRED = {'quick': {'child:' + c: 15 for c in CHILD}, 'thorough': {'child:' + c: 150 for c in CHILD}}
 REQUIRED['quick'].update({'stop:sigterm': 40, 'stop:terminate': 40, 'live_children>=2': 40})
 
@@ -62,9 +62,23 @@ def run_case(case, ctx):
     out.label('stop:' + case['stop'])
     try:
         next_ctx = 1
+        starting = []
         for c in case['children']:
             out.label('child:' + c)
             try:
+                if c == 'starting':
+                    # a worker whose constructor is still running (in another thread) when the server is stopped
+                    import threading
+                    box = {}
+
+                    def ctor(box=box):
+                        try:
+                            box['w'] = RemoteWorker(vtargets.coop_loop, args=[100000], host=srv.addr)
+                        except BaseException as e:
+                            box['e'] = e
+                    th = threading.Thread(target=ctor, daemon=True)
+                    starting.append((th, box))
+                    continue
                 if c == 'coop':
                     w = bounded(RemoteWorker, 25, vtargets.coop_loop, args=[100000], host=srv.addr)
                 elif c == 'swallow':
@@ -104,7 +118,11 @@ def run_case(case, ctx):
             out.label('live_children>=2')
         out.nontrivial = bool(live) or bool(ctxs)
         mine = [p for p in census(ctx.tag) if p not in before]
-        if case['delay']:
+        for th, box in starting:
+            th.start()
+        if starting:
+            time.sleep(case['delay'] / 10.0)      # 0, 5 or 50 ms into the start-up
+        elif case['delay']:
             time.sleep(case['delay'])
         t0 = time.monotonic()
         site = case['stop'] + ':' + '+'.join(sorted(set(case['children']))) if case['children'] else case['stop'] + ':no_children'
@@ -132,6 +150,13 @@ def run_case(case, ctx):
                     pass
             out.viol('process_left_after_server_stop', site, f'{len(left)} process(es) of this server still alive 10 s after the stop: {kinds[:3]}')
             kill_pids(left)
+        # ---- constructors that were running during the stop: must return or raise, a returned worker must end up dead
+        for th, box in starting:
+            th.join(30)
+            if th.is_alive():
+                out.viol('constructor_hangs_when_server_stops_during_startup', case['stop'] + ':starting', 'RemoteWorker() still blocked 30 s after the server was stopped')
+            elif 'w' in box:
+                kids.append(('coop_started_during_stop', box['w']))
         # ---- parents
         all_coop = all(c in ('coop', 'finished') for c in case['children'])
         for c, w in kids:
